@@ -57,6 +57,7 @@ type E7Spec struct {
 	Forbidden     []ForbiddenSpec    `json:"forbidden_calls"`
 	CrossAppend   []FuncRuleSpec     `json:"cross_append"`
 	NestedModel   []NestedModelSpec  `json:"nested_model"`
+	DirectOnly    []FuncRuleSpec     `json:"direct_children_only"`
 }
 
 type FuncRuleSpec struct {
@@ -212,6 +213,9 @@ func runE7(p *Program, sp *Spec, c *Collector) {
 	}
 	for _, nm := range t.NestedModel {
 		runNestedModel(p, c, nm)
+	}
+	for _, do := range t.DirectOnly {
+		runDirectOnly(p, c, do)
 	}
 	for _, n := range t.NoExit {
 		runNoExit(p, sp, c, n)
@@ -3869,6 +3873,41 @@ func runNestedModel(p *Program, c *Collector, nm NestedModelSpec) {
 			c.Ob(nm.Props, "E7.nested-model", key, Discharged, shortFn(p.FuncKey(fn))+" also visits "+nm.Partner, p.FuncPos(fn), true)
 		} else {
 			c.Ob(nm.Props, "E7.nested-model", key, Violated, nm.What+": "+shortFn(p.FuncKey(fn))+" walks a list of types and reads their "+strings.Join(nm.Reads, "/")+", but neither it nor a helper it calls ever looks at "+nm.Partner+": what member types declare and call is left out", p.FuncPos(fn), false)
+		}
+	}
+}
+
+// ---------------------------------------------------------------------------------------------
+// direct children only: a record built from an element of a tree takes its attributes from that element's own children. A
+// builder that (transitively) calls a self-recursive search looks at all descendants: the <groupId> of an <exclusion> below a
+// <dependency> is found where the dependency's own <groupId> was meant.
+func runDirectOnly(p *Program, c *Collector, a FuncRuleSpec) {
+	for _, fn := range expandFuncs(p, c, a.Funcs, a.Props...) {
+		if fn.Parent() != nil {
+			continue
+		}
+		key := "directonly:" + p.FuncKey(fn)
+		var bad *ssa.Function
+		for f := range p.reach([]*ssa.Function{fn}) {
+			if f == fn {
+				continue
+			}
+			for _, b := range f.Blocks {
+				for _, in := range b.Instrs {
+					if ci, ok := in.(ssa.CallInstruction); ok {
+						for _, callee := range p.ownCallees(ci) {
+							if callee == f {
+								bad = f
+							}
+						}
+					}
+				}
+			}
+		}
+		if bad != nil {
+			c.Ob(a.Props, "E7.direct-children", key, Violated, a.What+": "+shortFn(p.FuncKey(fn))+" reaches "+shortFn(p.FuncKey(bad))+", which calls itself: the attribute is searched among all descendants of the element, not among its own children", p.FuncPos(bad), false)
+		} else {
+			c.Ob(a.Props, "E7.direct-children", key, Discharged, "the record's attributes are read from the element's own children (no recursive search is reached)", p.FuncPos(fn), true)
 		}
 	}
 }
